@@ -18,6 +18,8 @@ SCOPE = ["swcgeom.utils.dsu", CHK, BASE, NORM, IO]
 
 def run(ctx, col, tier):
     repo = ctx.repo
+    from ..rules import smalllints as _small
+    _small.run_rounds(ctx, col, ('swcgeom.core.swc_utils.base', 'swcgeom.core.swc_utils.normalizer', 'swcgeom.core.swc_utils.checker', 'swcgeom.utils.dsu'))
     col.rule("R-API", "every attribute chain rooted at a numpy alias in the modules of this "
              "property names something the installed numpy stubs define", floor=20)
     col.rule("R-SENT", "the 'no parent' marker -1 survives arithmetic on the parent-id column: the "
